@@ -125,6 +125,11 @@ func runThorough(c *Ctx, verif string, p *Property, known *KnownFile, seed int, 
 			continue
 		}
 		res := selfTestResult{Mutant: filepath.Base(d)}
+		if _, err := os.Stat(filepath.Join(d, "OBSOLETE")); err == nil {
+			res.Outcome = "skipped (obsolete: no longer breaks the property on the repaired tree)"
+			results = append(results, res)
+			continue
+		}
 		scratch, err := os.MkdirTemp("", "sverif-selftest-")
 		if err != nil {
 			continue
